@@ -57,7 +57,7 @@ def main():
                 print(rows[-1], flush=True)
                 continue
             ok = r.returncode == 1 and viol
-            rows.append((m["name"] + " -> " + prop, ("CAUGHT " if ok else "MISSED exit=%d " % r.returncode) + "%.0fs " % (time.time() - t0) + " | ".join(v.split("obligation=")[-1] for v in viol)[:200] + ("" if ok else r.stdout[-300:])))
+            rows.append((m["name"] + " -> " + prop, ("CAUGHT " if ok else "MISSED exit=%d " % r.returncode) + "%.0fs " % (time.time() - t0) + " | ".join(v.split("obligation=")[-1] for v in viol)[:200] + ("" if ok else r.stdout[-300:] + (" STDERR: " + r.stderr[-600:].replace("\n", " | ") if r.returncode == 2 else ""))))
             print(rows[-1], flush=True)
     shutil.rmtree(MUT, ignore_errors=True)
     missed = [r for r in rows if not r[1].startswith("CAUGHT")]
